@@ -80,6 +80,19 @@ type csc struct {
 	mu      sync.Mutex
 	addrs   string
 	conns   int
+	// like gRPC's subchannel the fake keeps the slice it was given; touch() reads it the way a connecting
+	// transport does (under the connection's own lock, not the balancer's)
+	held []resolver.Address
+}
+
+func (s *csc) touch() int {
+	s.mu.Lock()
+	n := 0
+	for _, a := range s.held {
+		n += len(a.Addr)
+	}
+	s.mu.Unlock()
+	return n
 }
 
 func addrKey(a []resolver.Address) string {
@@ -90,8 +103,12 @@ func addrKey(a []resolver.Address) string {
 	return k
 }
 
-func (s *csc) UpdateAddresses(a []resolver.Address) { s.mu.Lock(); s.addrs = addrKey(a); s.mu.Unlock() }
-func (s *csc) Connect()                             { s.mu.Lock(); s.conns++; s.mu.Unlock() }
+func (s *csc) UpdateAddresses(a []resolver.Address) {
+	s.mu.Lock()
+	s.addrs, s.held = addrKey(a), a
+	s.mu.Unlock()
+}
+func (s *csc) Connect() { s.mu.Lock(); s.conns++; s.mu.Unlock() }
 func (s *csc) GetOrBuildProducer(balancer.ProducerBuilder) (balancer.Producer, func()) {
 	return nil, func() {}
 }
@@ -155,7 +172,7 @@ func inRefresh() bool {
 func (c *ccc) NewSubConn(a []resolver.Address, o balancer.NewSubConnOptions) (balancer.SubConn, error) {
 	isRefresh := inRefresh()
 	c.mu.Lock()
-	sc := &csc{id: len(c.all), refresh: isRefresh, addrs: addrKey(a)}
+	sc := &csc{id: len(c.all), refresh: isRefresh, addrs: addrKey(a), held: a}
 	c.all = append(c.all, sc)
 	if isRefresh {
 		c.refreshes++
@@ -247,6 +264,7 @@ type PoolProg struct {
 	DEPct    int    `json:"deadlinePct"` // share of calls that end with a client-side deadline error (0 = one third)
 	Seed     uint64 `json:"seed"`
 	Pert     int    `json:"perturbation"`
+	Siblings int    `json:"siblings,omitempty"` // other balancers (own ClientConn, other locators) built, configured and closed while the workload runs
 	Failure  string `json:"failure,omitempty"`
 }
 
@@ -325,6 +343,46 @@ func RunPool(p *PoolProg) (violation string, st Stats) {
 		}
 	}
 	bring()
+	// sibling balancers of the same process: whatever the library keeps at package level is shared with them
+	var sib sync.WaitGroup
+	for k := 0; k < p.Siblings; k++ {
+		sib.Add(1)
+		go func(k int) {
+			defer sib.Done()
+			defer func() {
+				if r := recover(); r != nil {
+					cc.violate("C05", "sibling balancer panicked: %v", r)
+				}
+			}()
+			time.Sleep(time.Duration(50+100*k) * time.Microsecond)
+			j := fmt.Sprintf(`{"channelPool":{"minSize":1,"maxSize":2},"method":[{"name":["/s%d"],"affinity":{"command":"BOUND","affinityKey":"sibling%d.key"}},{"name":["/t%d"],"affinity":{"command":"BIND","affinityKey":"keys"}}]}`, k, k, k)
+			cfg2, err := bb.(balancer.ConfigParser).ParseConfig([]byte(j))
+			if err != nil {
+				return
+			}
+			cc2 := &ccc{pending: map[int]int{}, removed: map[*csc]int{}, newConns: make(chan *csc, 256), max: 2, minLEmax: true}
+			b2 := bb.Build(cc2, balancer.BuildOptions{})
+			b2.UpdateClientConnState(balancer.ClientConnState{ResolverState: resolver.State{Addresses: []resolver.Address{{Addr: "S"}}}, BalancerConfig: cfg2})
+			for {
+				select {
+				case sc := <-cc2.newConns:
+					b2.UpdateSubConnState(sc, balancer.SubConnState{ConnectivityState: connectivity.Ready})
+					continue
+				default:
+				}
+				break
+			}
+			if pk := cc2.picker(0); pk != nil {
+				ctx := ictx(context.Background(), &cmsg{Key: "sk"}, &cmsg{Key: "sk", Keys: []string{"sk"}})
+				for _, m := range []string{fmt.Sprintf("/t%d", k), fmt.Sprintf("/s%d", k), "/plain"} {
+					if res, err := pk.Pick(balancer.PickInfo{Ctx: ctx, FullMethodName: m}); err == nil && res.Done != nil {
+						res.Done(balancer.DoneInfo{})
+					}
+				}
+			}
+			b2.Close()
+		}(k)
+	}
 	cbDone.Add(1)
 	go func() { // the serialized balancer callbacks
 		defer cbDone.Done()
@@ -367,6 +425,7 @@ func RunPool(p *PoolProg) (violation string, st Stats) {
 					a = addrB
 				}
 				lastAddrs = addrKey(a)
+				a = append([]resolver.Address(nil), a...) // a resolver hands out a fresh list every time
 				b.UpdateClientConnState(balancer.ClientConnState{ResolverState: resolver.State{Addresses: a}})
 				inCallback.Store(0)
 			case r%16 == 2:
@@ -456,6 +515,7 @@ func RunPool(p *PoolProg) (violation string, st Stats) {
 				}
 				placed.Add(1)
 				sc := res.SubConn.(*csc)
+				sc.touch()
 				if p.Kind == "rr" {
 					v, _ := perConn.LoadOrStore(sc, new(atomic.Int64))
 					v.(*atomic.Int64).Add(1)
@@ -476,7 +536,7 @@ func RunPool(p *PoolProg) (violation string, st Stats) {
 	}
 	// progress: everything finishes within the bound (normal: milliseconds)
 	finished := make(chan struct{})
-	go func() { wg.Wait(); close(stop); cbDone.Wait(); close(finished) }()
+	go func() { wg.Wait(); close(stop); cbDone.Wait(); sib.Wait(); close(finished) }()
 	select {
 	case <-finished:
 	case <-time.After(20 * time.Second):
